@@ -210,6 +210,8 @@ CONTRACTS = [
           "W_again": "implies(canon(edge) in E(old(self)), W(self, canon(edge)) == (W(old(self), canon(edge)) + real(1 if weight is None else weight) if weighted(self) else W(old(self), canon(edge))))",
           **OTHER_EDGES,
           "M_given": "implies(metadata is not None, M(self, canon(edge)) == metadata)",
+          # frame needed by remove_node(keep_edges=True), which iterates over ids: stored hyperedges keep their ids
+          "ids": "all(ID(self, k) == ID(old(self), k) for k in E(old(self)))",
           **NODE_MD_KEPT, **SAME_WEIGHTED,
       },
       invariants={0: {"inv": _add_edge_inv()}}),
@@ -511,6 +513,28 @@ CONTRACTS = [
       invariants={0: {"neigh": "all((m in neigh) == any(count(_done0, k) >= 1 and m in k for k in Tuple) for m in Node)"},
                   1: {"neigh": "all((m in neigh) == any(count(_done1, k) >= 1 and m in k for k in Tuple) for m in Node)"}},
       properties=["C01", "C08"]),
+    # node removal that shrinks the incident hyperedges: k survives iff it does not contain the node and either was there or is the
+    # remainder k0 - {node} of a stored hyperedge k0 (then k0 = with_node(k, node)); weights of coinciding hyperedges add up (weighted)
+    Contract(f"{CLS}.remove_node@keep", FILE, [CLS, "remove_node"], self_cls=CLS, properties=["C01", "C19"],
+      params={"node": "Node", "keep_edges": "Bool"}, fixed={"keep_edges": True},
+      locals={"to_remove": "Bag[Tup]"},
+      requires={"wf": "wf(self)"},
+      raises={"KeyError": "node not in V(self)"},
+      modifies=["_adj", "_node_metadata", "_edge_list", "_reverse_edge_list", "_weights", "_edge_metadata", "_next_edge_id"],
+      ensures={"wf": "wf(self)",
+               "V": "all((n in V(self)) == (n in V(old(self)) and n != node) for n in Node)",
+               "E": "all((k in E(self)) == (node not in k and (k in E(old(self)) or (node not in k and strict(k) and len(k) >= 1 and with_node(k, node) in E(old(self))))) for k in Tuple)",
+               "W": "implies(weighted(self), all(W(self, k) == (W(old(self), k) if k in E(old(self)) else 0) + (W(old(self), with_node(k, node)) if (node not in k and strict(k) and len(k) >= 1 and with_node(k, node) in E(old(self))) else 0) for k in E(self)))",
+               "NM_kept": "all(NM(self, n) == NM(old(self), n) for n in V(self))",
+               "weighted": "weighted(self) == weighted(old(self))"},
+      invariants={0: {
+          "wf": "wf(self)", "V": "V(self) == V(old(self))",
+          "ids": "all(k in E(self) and ID(self, k) == ID(old(self), k) for k in E(old(self)))",
+          "Enew": "all(implies(k not in E(old(self)), (k in E(self)) == (node not in k and strict(k) and len(k) >= 1 and with_node(k, node) in E(old(self)) and count(_done0, ID(old(self), with_node(k, node))) >= 1)) for k in Tuple)",
+          "W": "implies(weighted(self), all(W(self, k) == (W(old(self), k) if k in E(old(self)) else 0) + (W(old(self), with_node(k, node)) if (node not in k and strict(k) and len(k) >= 1 and with_node(k, node) in E(old(self)) and count(_done0, ID(old(self), with_node(k, node))) >= 1) else 0) for k in E(self)))",
+          "to_remove": "all(count(to_remove, k) == (1 if k in E(old(self)) and node in k and count(_done0, ID(old(self), k)) >= 1 else 0) for k in Tuple)",
+          "NM_kept": "all(NM(self, n) == NM(old(self), n) for n in V(old(self)))",
+          "weighted": "weighted(self) == weighted(old(self))"}}),
 ]
 
 
